@@ -1,5 +1,6 @@
-(* DRAFT: C14 - a file handle as a plain byte array with a position, the six open modes.
-   Only permitted operations are modelled (a refused one returns None; the implementation's behaviour there belongs to C04). *)
+(* C14 - a file handle as a plain byte array with a position, the six open modes.
+   fstep: the PERMITTED operations (a refused one returns None); FilesTotal.v adds close and says what a refused operation does (an OS error
+   value with errno 9 or 22 and no change at all). *)
 From Coq Require Import ZArith NArith List Bool Lia.
 Import ListNotations.
 Open Scope Z_scope.
@@ -38,7 +39,7 @@ Definition fstep (s:fstate) (o:op) : option (fstate * result) :=
   let m := fmode s in
   match o with
   | ORead n =>
-      if can_read m then
+      if can_read m && (-1 <=? n) then       (* -1 reads all; a count below -1 is refused (ValueError: read length must be non-negative or -1) *)
         let avail := drop (pos s) (content s) in
         let got := if n <? 0 then avail else take n avail in
         Some ({| content := content s; pos := pos s + len got; fmode := m |}, RBytes got)
